@@ -31,7 +31,8 @@ SECOND = [3, 9, 3, 9]          # fixed second criteria range, criterion ">5" sel
 
 # (name, formula text of the criterion, value the criterion evaluates to)
 FORMS = [
-    ('num', '5', 5), ('zero', '0', 0), ('num7', '7', 7), ('text', '"apple"', 'apple'), ('text_upper', '"APPLE"', 'APPLE'),
+    ('num', '5', 5), ('zero', '0', 0), ('num7', '7', 7), ('num_one', '1', 1), ('bool_true', 'TRUE', True), ('bool_false', 'FALSE', False),
+    ('num_one_float', '1.0', 1.0), ('text', '"apple"', 'apple'), ('text_upper', '"APPLE"', 'APPLE'),
     ('gt', '">5"', '>5'), ('lt', '"<5"', '<5'), ('ge', '">=5"', '>=5'), ('le', '"<=5"', '<=5'), ('ne', '"<>5"', '<>5'),
     ('eq', '"=5"', '=5'), ('gt0', '">0"', '>0'), ('lt_dec', '"<5.5"', '<5.5'),
     ('ne_text', '"<>apple"', '<>apple'), ('eq_text', '"=apple"', '=apple'),
@@ -164,6 +165,8 @@ def wild_regex(t):
 
 def predicate(crit):
     """-> function cell -> bool ; raises R.Unspecified where the statement is silent."""
+    if isinstance(crit, bool):
+        return lambda x: isinstance(x, bool) and x is crit     # a logical criterion selects logical cells only
     if is_num(crit):
         op, operand = '=', crit
     elif isinstance(crit, str):
@@ -241,7 +244,7 @@ def kinds_of(vec):
 def crit_class(fname):
     if fname.startswith('wild'):
         return 'wildcard'
-    if fname in ('num', 'zero', 'num7', 'cell_num'):
+    if fname in ('num', 'zero', 'num7', 'cell_num', 'num_one', 'num_one_float', 'bool_true', 'bool_false'):
         return 'number'
     if fname in ('text', 'text_upper', 'cell_text'):
         return 'text'
